@@ -78,15 +78,26 @@ def halveDown (l : List α) (coin : Bool) : List α := if coin then odds l else 
 /-- `randomly_halve_up`: keeps positions ≡ len-1-offset (mod 2), len even -/
 def halveUp (l : List α) (coin : Bool) : List α := if coin then evens l else odds l
 
-/-- `std::sort` of level 0 (order of equivalent items is unspecified in C++; the model is stable) -/
-def sortBy (lt : α → α → Bool) (l : List α) : List α := l.mergeSort (fun a b => !lt b a)
+/-- stable insertion: before the first element that is not smaller -/
+def insertBy (lt : α → α → Bool) (x : α) : List α → List α
+  | [] => [x]
+  | y :: t => if lt y x then y :: insertBy lt x t else x :: y :: t
+
+/-- `std::sort` of level 0 (order of equivalent items is unspecified in C++; the model is the stable sort;
+written as an insertion sort so that it is structurally recursive and evaluates in the kernel) -/
+def sortBy (lt : α → α → Bool) : List α → List α
+  | [] => []
+  | x :: t => insertBy lt x (sortBy lt t)
+
+/-- `merge_sorted_arrays(a, b)` with explicit fuel (structural recursion, so that it evaluates in the kernel) -/
+def mergeUpF (lt : α → α → Bool) : Nat → List α → List α → List α
+  | _, [], b => b
+  | _, x :: a, [] => x :: a
+  | 0, x :: a, y :: b => x :: a ++ y :: b      -- unreachable with fuel = a.length + b.length
+  | f + 1, x :: a, y :: b => if lt x y then x :: mergeUpF lt f a (y :: b) else y :: mergeUpF lt f (x :: a) b
 
 /-- `merge_sorted_arrays(a, b)`: takes from `a` when `C(a, b)`, else from `b` -/
-def mergeUp (lt : α → α → Bool) : List α → List α → List α
-  | [], b => b
-  | x :: a, [] => x :: a
-  | x :: a, y :: b => if lt x y then x :: mergeUp lt a (y :: b) else y :: mergeUp lt (x :: a) b
-termination_by a b => a.length + b.length
+def mergeUp (lt : α → α → Bool) (a b : List α) : List α := mergeUpF lt (a.length + b.length) a b
 
 /-- the odd leftover `items[raw_beg]` -/
 def leftoverOf (cur : List α) : List α := if cur.length % 2 == 1 then cur.take 1 else []
